@@ -197,7 +197,7 @@ func runSeq(which string, maxTotal, maxPeer uint64, npeers int, ops []Op, drain 
 
 type config struct{ total, peer uint64 }
 
-var smallConfigs = []config{{3, 2}, {3, 3}, {4, 2}, {4, 3}, {5, 2}, {5, 3}}
+var smallConfigs = []config{{3, 2}, {3, 3}, {4, 2}, {4, 3}, {5, 2}, {5, 3}, {2, 3}}
 
 func opAlphabet(npeers int) []Op {
 	var out []Op
